@@ -21,6 +21,8 @@ def evaluate_maps(res, rows):
         p, c = unord.pairs_of(q[2]), unord.pairs_of(q[3])
         if r[0] == 'panic':
             res.corr['impl_failures'].append({'request': req[:2000], 'impl': resp, 'what': 'map diff computation panicked'}); continue
+        if r[0] == 'panic':
+            res.corr['impl_failures'].append({'request': req[:3000], 'impl': resp, 'what': 'map diff computation panicked'}); continue
         cd = unord.canon_mdiff(r); md = unord.canon_mdiff(m)
         hbump(res, 'map-repr:' + ('none' if cd is None else cd[0]))
         if cd != md:
